@@ -291,6 +291,12 @@ func outKind(line string) string {
 		return f[0] + " " + f[1]
 	}
 
+	if f[0] == "ev" && len(f) > 1 {
+		t, _, _ := strings.Cut(f[1], "~")
+
+		return f[0] + " " + t
+	}
+
 	return f[0]
 }
 
